@@ -710,7 +710,7 @@ func genSpec(seed uint64, worker, run int, tier string) (*Spec, *Rng, faultSet) 
 	}
 	if r.Chance(0.15) {
 		// one more object that WRAPS earlier pool objects without copying them
-		sh := Recipe{Via: "share", Kind: r.PickS("FeatureCollection", "GeometryCollection", "Feature")}
+		sh := Recipe{Via: "share", Kind: r.PickS("FeatureCollection", "GeometryCollection", "Feature", "Rewrap")}
 		for k := r.Range(1, 3); k > 0; k-- {
 			sh.Refs = append(sh.Refs, r.Intn(len(s.Pool)))
 		}
